@@ -64,6 +64,9 @@ pub struct CaseResult {
     pub sample: Option<Value>,
     /// fine-grained outcome counters inside the case (e.g. verdict classes of sub-cases)
     pub counters: BTreeMap<String, u64>,
+    /// disagreements between the implementation and the reference model that do NOT bear on the property being
+    /// checked (they belong to another property, e.g. wire compatibility); reported as notes, never as a verdict
+    pub binding: Vec<(String, String)>,
 }
 
 impl CaseResult {
@@ -80,6 +83,10 @@ impl CaseResult {
 
     pub fn machinery_error(&mut self, what: impl Into<String>) {
         self.machinery.push(what.into());
+    }
+
+    pub fn binding_note(&mut self, sub: impl Into<String>, what: impl Into<String>) {
+        self.binding.push((sub.into(), what.into()));
     }
 
     pub fn outcome_counter(&mut self, name: &str) -> &mut u64 {
@@ -144,6 +151,7 @@ pub fn run_child_shard(cases: Vec<Box<dyn Case>>, shard: usize, shards: usize, f
             "extra_states": r.extra_states,
             "violations": r.violations.iter().map(|(a, b)| json!([a, b])).collect::<Vec<_>>(),
             "machinery": r.machinery,
+            "binding": r.binding.iter().map(|(a, b)| json!([a, b])).collect::<Vec<_>>(),
             "counters": r.counters,
             "sample": r.sample,
         });
@@ -205,6 +213,7 @@ pub struct Report {
     pub violations: Vec<(String, String)>,
     pub known_hits: BTreeMap<String, (String, u64)>,
     pub machinery: Vec<String>,
+    pub binding: Vec<(String, String)>,
     pub expect_outcomes: Vec<String>,
     pub sub_outcomes: BTreeMap<String, u64>,
     pub expect_sub: Vec<String>,
@@ -267,6 +276,7 @@ impl Report {
             violations: Vec::new(),
             known_hits: BTreeMap::new(),
             machinery: Vec::new(),
+            binding: Vec::new(),
             expect_outcomes: Vec::new(),
             sub_outcomes: BTreeMap::new(),
             expect_sub: Vec::new(),
@@ -381,6 +391,9 @@ impl Report {
             for m in r.machinery {
                 self.machinery.push(m);
             }
+            for (sub, what) in r.binding {
+                self.binding.push((format!("{}#{}", key, sub), what));
+            }
             for (sub, what) in r.violations {
                 let full = if sub.is_empty() { key.clone() } else { format!("{}#{}", key, sub) };
                 if let Some(k) = known
@@ -472,6 +485,9 @@ impl Report {
                     }
                     for m in v["machinery"].as_array().cloned().unwrap_or_default() {
                         self.machinery.push(m.as_str().unwrap_or("").to_string());
+                    }
+                    for b in v["binding"].as_array().cloned().unwrap_or_default() {
+                        self.binding.push((format!("{}#{}", key, b[0].as_str().unwrap_or("")), b[1].as_str().unwrap_or("").to_string()));
                     }
                     for viol in v["violations"].as_array().cloned().unwrap_or_default() {
                         let sub = viol[0].as_str().unwrap_or("");
@@ -574,6 +590,16 @@ impl Report {
         for m in &self.machinery {
             println!("MACHINERY-ERROR property={} {}", self.id, m);
         }
+        if !self.binding.is_empty() {
+            println!(
+                "[{}] note: {} case(s) where the implementation and the reference model disagree on something this property does not state (another property's business; not a verdict here), e.g.:",
+                self.id,
+                self.binding.len()
+            );
+            for (k, w) in self.binding.iter().take(3) {
+                println!("[{}]   reference-binding note {} : {}", self.id, k, w);
+            }
+        }
         if self.replay_filter.is_none() {
             let mut coverage = json!({
                 "states": states.max(1),
@@ -590,6 +616,8 @@ impl Report {
                 "known_findings_hit": self.known_hits.iter().map(|(k, (w, c))| json!({"key": k, "what": w, "cases": c})).collect::<Vec<_>>(),
                 "violation_replays": replay_paths,
                 "machinery_errors": self.machinery,
+                "reference_binding_notes": self.binding.len(),
+                "reference_binding_note_samples": self.binding.iter().take(5).map(|(k, w)| json!({"case": k, "what": w})).collect::<Vec<_>>(),
             });
             for (k, v) in &self.notes {
                 coverage[k] = v.clone();
